@@ -95,6 +95,12 @@ def simOp (net : Net) (toks : List String) : Option (Net × String) :=
       | .ok none => "ok:alone"
       | .ok (some (p, s)) => s!"ok:{p}:{s}"
       | .error e => "err:" ++ e.name)
+  | ["leavefinish", l, p, sc] => do
+    let l ← nat l; let p ← nat p; let sc ← nat sc
+    let net1 := if p != l then finish net p true false else net
+    let net2 := net1.upd l (fun nd => { nd with state := .left })
+    let net3 := if sc != l then finish net2 sc false true else net2
+    pure (net3, "ok")
   | ["leave", l] => (nat l).map fun l => let (net', e) := leave net l; (net', errStr e)
   | ["stabilize", n] => (nat n).map fun n => (stabilize net n, "ok")
   | ["stabilizex", n] => (nat n).map fun n => (stabilizeNoNotify net n, "ok")
@@ -107,6 +113,13 @@ def simOp (net : Net) (toks : List String) : Option (Net × String) :=
   | ["reqjoin", s, j] => do
     let s ← nat s; let j ← nat j
     let (net', r) := requestToJoin net FUEL s j
+    pure (net', match r with
+      | .ok (prev, l) => s!"ok:{prev}:{",".intercalate (l.map toString)}"
+      | .error e => "err:" ++ e.name)
+  | ["reqjoinrace", s, j, x] => do
+    -- `checkPredecessor x` runs concurrently, between the routing decision and the membership lock
+    let s ← nat s; let j ← nat j; let x ← nat x
+    let (net', r) := requestToJoinWith (fun n => checkPredecessor n x) net FUEL s j
     pure (net', match r with
       | .ok (prev, l) => s!"ok:{prev}:{",".intercalate (l.map toString)}"
       | .error e => "err:" ++ e.name)
